@@ -859,6 +859,7 @@ class Interp:
         if not isinstance(arg, (ast.Name, ast.Attribute, ast.ListComp, ast.GeneratorExp, ast.Tuple, ast.List, ast.Call)):
             return None
         rs = self._forced(self.eval(arg, st, fr), fr)
+        rs = [Result(r.kind, unbox(r.value, r.state), r.state) if r.kind == "val" and is_handle(r.value) else r for r in rs]   # (a list some object holds: what it holds now)
         if any(r.kind == "val" and self._exact_elements(r.value) is None for r in rs):
             if isinstance(arg, ast.Call):
                 # the argument was evaluated (its effects are in rs): finish the call with an unknown result
